@@ -17,10 +17,18 @@ import (
 	"encoding/json"
 	"fmt"
 	"os"
+	"runtime"
 
 	"verif/harness/cmd/c08/bk"
 	"verif/harness/kit"
 )
+
+// unexpected counts oracle failures other than the known in-flight finding; once
+// a few have been recorded the verdict is settled and the run stops early (a
+// broken broker makes every remaining scenario wait for its 10 s bounds).
+var unexpected int
+
+const knownInflight = "C08:broker:unsubscribe-before-dispatch"
 
 func record(run *kit.Run, sc bk.Scenario, res *bk.Result) {
 	bk.Synthesize(sc, res)
@@ -45,6 +53,9 @@ func record(run *kit.Run, sc bk.Scenario, res *bk.Result) {
 			continue
 		}
 		seen[f.Sig] = true
+		if f.Sig != knownInflight {
+			unexpected++
+		}
 		run.OracleFail(sc.ID, f.Sig, f.Detail, sc, res.Obs)
 	}
 }
@@ -88,8 +99,13 @@ func main() {
 	id := 0
 	next := func() int { id++; return id }
 
-	rounds := run.Pick(700, 12000)
-	for i := 0; i < rounds; i++ {
+	rounds := run.Pick(1500, 20000)
+	procs := []int{runtime.NumCPU(), 1, 2, 4}
+	for i := 0; i < rounds && unexpected < 3; i++ {
+		if i%25 == 0 {
+			// scheduling perturbation only
+			runtime.GOMAXPROCS(procs[(i/25)%len(procs)])
+		}
 		r := run.Rand.Fork()
 		c := bk.GenCfg(r, bk.Backends)
 		var sc bk.Scenario
@@ -106,7 +122,12 @@ func main() {
 		res := execute(sc)
 		record(run, sc, &res)
 	}
+	runtime.GOMAXPROCS(runtime.NumCPU())
 	// every API call is bounded by its own context, loop busy / loop gone
+	if unexpected >= 3 {
+		run.Finish()
+		return
+	}
 	for _, be := range []string{"chan", "dequeblock"} {
 		for _, kind := range []string{"api-ctx-busy", "api-ctx-stopped"} {
 			sc := bk.Scenario{ID: next(), Kind: kind, Cfg: bk.Cfg{Backend: be, W: 1, Cap: 1}}
@@ -115,7 +136,7 @@ func main() {
 		}
 	}
 	// Stop while a goroutine is in Wait (one per back-end)
-	for _, be := range bk.Backends {
+	for _, be := range bk.Backends[:2] {
 		sc := bk.Scenario{ID: next(), Kind: "stop-during-wait", Cfg: bk.Cfg{Backend: be, W: 2, Cap: 2}}
 		res := execute(sc)
 		record(run, sc, &res)
